@@ -476,6 +476,40 @@ Section TextInput.
     end.
 End TextInput.
 
+(* ===================================================================== vocabulary of the theorems *)
+
+(* every cluster of a text belongs to the alphabet *)
+Definition in_alpha {G} (A : list G) (cs : list G) : Prop := Forall (fun c => In c A) cs.
+
+(* the TextField state that holds what an ideal editor holds *)
+Definition tf_of_ideal (e : ideal text) : tf :=
+  mkTf (concat (i_text e)) (i_index e) (zlen (i_text e)).
+
+(* TextField operations covered by the refinement theorem: inserted material is a
+   concatenation of alphabet clusters; CursorTo takes a uint; the exported field Value is
+   not assigned behind the widget's back *)
+Definition tf_op_ok (A : list text) (o : tf_op) : Prop :=
+  match o with
+  | TText s | TInsertApi s => exists ks, in_alpha A ks /\ s = concat ks
+  | TCursorToApi i => 0 <= i
+  | TSetValue _ => False
+  | _ => True
+  end.
+
+(* the textinput state that holds what an ideal editor holds, with any scroll offset,
+   pending paste buffer and prompt *)
+Definition ti_of_ideal (e : ideal cluster) (offset : Z) (paste : text) (prompt : list cluster) : ti :=
+  mkTi (i_text e) (i_index e) offset paste prompt.
+
+(* textinput operations covered: typed, pasted and programmatically set material is a
+   concatenation of alphabet clusters *)
+Definition ti_op_ok (A : list cluster) (o : ti_op) : Prop :=
+  match o with
+  | OEv (EDefault false s) | OEv (EPasteChunk s) | OSetContent s =>
+      exists ks, in_alpha A ks /\ s = cl_text ks
+  | _ => True
+  end.
+
 (* ===================================================================== correspondence *)
 
 (* the oracle answers shipped with one step *)
@@ -641,12 +675,16 @@ Definition ti_abs1 (chars : text -> option (list cluster)) (o : ti_op) : iop clu
   | OSetContent s => ISet (chars_or_nil chars s)
   | _ => INop
   end.
+Definition ti_abs_step (chars : text -> option (list cluster)) (paste : text) (o : ti_op) : iop cluster * text :=
+  match o with
+  | OEv (EPasteChunk s) => (INop, paste ++ s)
+  | OEv EPasteEnd => (IIns (chars_or_nil chars paste), [])
+  | _ => (ti_abs1 chars o, paste)
+  end.
 Fixpoint ti_abs (chars : text -> option (list cluster)) (paste : text) (os : list ti_op) : list (iop cluster) :=
   match os with
   | [] => []
-  | OEv (EPasteChunk s) :: r => INop :: ti_abs chars (paste ++ s) r
-  | OEv EPasteEnd :: r => IIns (chars_or_nil chars paste) :: ti_abs chars [] r
-  | o :: r => ti_abs1 chars o :: ti_abs chars paste r
+  | o :: r => fst (ti_abs_step chars paste o) :: ti_abs chars (snd (ti_abs_step chars paste o)) r
   end.
 
 (* Draw on observations: it returns; and when no earlier Draw has scrolled (offset 0
